@@ -128,6 +128,11 @@ theorem normInfC_zero {n : Nat} (hn : 1 ≤ n) :
   simp only [cxabs_zero]
   congr 1
   rw [← Array.foldl_toList]
+  -- (repair D14) the NaN test `|x| != |x|` of `norm_inf` never fires over ℝ
+  have hstep : (fun (r : ℝ) (x : Cx ℝ) => if ScalarExt.lt r (Cx.abs x) || !(Cx.abs x == Cx.abs x) then Cx.abs x else r)
+      = (fun r x => if ScalarExt.lt r (Cx.abs x) then Cx.abs x else r) := by
+    funext r x; simp
+  rw [hstep]
   apply foldl_zeroC
   intro x hx
   simp at hx
